@@ -31,6 +31,12 @@ type Comb struct {
 	DupB       func(in chan int) (<-chan int, <-chan int)
 }
 
+// FmapCalls counts applications of the function handed to deriveFmap over a channel; FmapShift is
+// what that function adds, so that applying it zero or two times is visible in the item ids.
+var FmapCalls atomic.Int64
+
+const FmapShift = 7
+
 var combs []*Comb
 
 // RegComb registers a combinator.
@@ -238,6 +244,7 @@ func itemID(in, prod, k int) int { return in*1000000 + prod*10000 + k }
 
 func runScenario(cb *Comb, sc Scenario) (res scenResult) {
 	runtime.GOMAXPROCS(sc.Procs)
+	FmapCalls.Store(0)
 	atomic.StoreInt64(&yieldN, 0)
 	yieldSeed = uint64(sc.Seed)*0x9E3779B97F4A7C15 + 12345
 	var mu sync.Mutex
@@ -423,6 +430,9 @@ func runScenario(cb *Comb, sc Scenario) (res scenResult) {
 					evs = append(evs, Ev{Call: t0, Ret: tick(), Kind: "closed", Ch: oi, Proc: 800 + oi})
 					break
 				}
+				if cb.Fmap != nil {
+					v -= FmapShift
+				}
 				evs = append(evs, Ev{Call: t0, Ret: tick(), Kind: "recv", Ch: oi, ID: v, Proc: 800 + oi})
 			}
 			record(evs)
@@ -496,6 +506,13 @@ func checkHistory(cb *Comb, sc Scenario, hist []Ev, nouts int, pipelineWant map[
 	want := sent
 	if cb.Pipeline != nil {
 		want = pipelineWant
+	}
+	if cb.Fmap != nil {
+		// the mapped function adds FmapShift (taken off again where the receive is recorded) and must
+		// have been applied exactly once per item
+		if n := FmapCalls.Load(); n != int64(len(sent)) {
+			viol = append(viol, fmt.Sprintf("fmap: the mapped function was applied %d times for %d items", n, len(sent)))
+		}
 	}
 	for o := 0; o < nouts; o++ {
 		var seq []Ev
